@@ -257,6 +257,8 @@ pub fn get_sub_entity_query(
     t: usize,
     is_unique_value: bool,
 ) -> String {
+    //the field name or alias is used as a table alias: quoted, it can be an SQL keyword or start with a digit
+    let field_name = &format!("\"{}\"", field_name);
     let mut q = String::new();
     tab(&mut q, t);
     q.push_str("SELECT \n");
@@ -315,6 +317,8 @@ pub fn get_sub_system_entity_query(
     t: usize,
     is_unique_value: bool,
 ) -> String {
+    //the field name or alias is used as a table alias: quoted, it can be an SQL keyword or start with a digit
+    let field_name = &format!("\"{}\"", field_name);
     let mut q = String::new();
     tab(&mut q, t);
     q.push_str("SELECT \n");
@@ -525,7 +529,7 @@ fn get_fields(
                         ParamValue::Null => unreachable!(),
                     };
                     q.push_str(&format!(
-                        "'{}', Ifnull({},{}",
+                        "'{}', Ifnull({},{})",
                         &field.name(),
                         select,
                         default
